@@ -10,6 +10,8 @@ mod parser;
 mod string;
 mod string_format_options;
 mod string_slice;
+#[cfg(koto_verif)]
+pub mod verif;
 
 pub use crate::{
     ast::*,
